@@ -437,7 +437,7 @@ Proof.
   induction f as [|f IH]; intros s p off H; [lia|].
   simpl. destruct (next_raw_total s p off) as [R|[t [es [n [p' [R [H1 H2]]]]]]]; rewrite R.
   - eauto.
-  - destruct (IH (skipn n s) p' (off + n)) as [[ts es'] R'].
+  - destruct (IH (skipn n s) p' (n + off)) as [[ts es'] R'].
     + rewrite skipn_length. lia.
     + rewrite R'. eauto.
 Qed.
@@ -449,7 +449,7 @@ Proof.
   induction f as [|f IH]; intros s p off r H f' Hf; [discriminate|].
   destruct f' as [|f']; [lia|]. simpl in *.
   destruct (next_raw s p off) as [[[[[t es] n] p']|]| |]; try discriminate; [|exact H].
-  destruct (raw_loop f (skipn n s) p' (off + n)) as [[ts es']| |] eqn:R; try discriminate.
+  destruct (raw_loop f (skipn n s) p' (n + off)) as [[ts es']| |] eqn:R; try discriminate.
   rewrite (IH _ _ _ _ R f') by lia. exact H.
 Qed.
 
@@ -475,7 +475,7 @@ Lemma raw_loop_progress : forall f s p off ts es, raw_loop f s p off = Ok (ts, e
 Proof.
   induction f as [|f IH]; intros s p off ts es H; [discriminate|].
   simpl in H. destruct (next_raw s p off) as [[[[[t e1] n] p']|]| |] eqn:R; try discriminate.
-  - destruct (raw_loop f (skipn n s) p' (off + n)) as [[ts' es']| |] eqn:R'; try discriminate.
+  - destruct (raw_loop f (skipn n s) p' (n + off)) as [[ts' es']| |] eqn:R'; try discriminate.
     inversion H; subst. constructor; [|eapply IH; eassumption].
     clear - R. unfold next_raw in R.
     destruct (skip_ws s p) as [w p1].
